@@ -260,6 +260,107 @@ def _corruption(ctx):
         ctx.violation(f'coding/unsupported-coding-accepted/{alg}', {'got': got}, case={'kind': 'corrupt', 'alg': alg})
 
 
+# ------------------------------------------------------------------ configuration histories (provider level)
+def _config_histories(ctx):
+    """The locally enabled codings are an application setting that may change at run time
+    (SdcProvider.set_used_compression). Histories: configure, start the provider with its own HTTP server, let a
+    notification client exist, re-configure (every ordered pair of settings): after the last call the HTTP server (responses
+    to requests) and the notification clients (requests to subscribers) must only use what is enabled now."""
+    import threading
+    import sdc11073.provider.providerimpl as pimpl
+    from mcx import world
+    from sdc11073.httpserver.compression import CompressionHandler
+    from sdc11073.pysoap.soapclient import SoapClient
+    all_enc = list(CompressionHandler.available_encodings)
+    settings = [(), ('gzip',), tuple(e for e in all_enc if 'lz4' in e), tuple(all_enc)]
+    captured = []
+
+    class RecServer:
+        """Stands in for the provider's own HttpServerThreadBase: keeps what the provider hands over."""
+
+        def __init__(self, my_ipaddress, ssl_context, supported_encodings, logger, chunk_size=0, **_kw):  # noqa: ARG002
+            self.supported_encodings = supported_encodings
+            self.started_evt = threading.Event()
+            self.started_evt.set()
+            self._fake = world.FakeHttpServer(cur_world[0].wire, my_ipaddress, 8000)
+            self.dispatcher = self._fake.dispatcher
+            self.server_port = 8000
+            self.base_url = self._fake.base_url
+            captured.append(self)
+
+        def start(self):
+            pass
+
+        def stop(self, *a, **k):
+            pass
+
+    cur_world = [None]
+    saved = pimpl.HttpServerThreadBase
+    pimpl.HttpServerThreadBase = RecServer
+    try:
+        world.install()
+        for first in settings:
+            for second in settings:
+                for when in ('before-start', 'after-start'):
+                    ctx.add('states')
+                    ctx.transition(3)
+                    ctx.evals()
+                    ctx.trace()
+                    del captured[:]
+                    w = world.World()
+                    cur_world[0] = w
+                    try:
+                        p = w.mk_provider(shared_server=False, start=False, roles=False)
+                        p.set_used_compression(*first)
+                        if when == 'before-start':
+                            p.set_used_compression(*second)
+                        p.start_all(start_rtsample_loop=False)
+                        # a notification client as the subscription managers create it (real SoapClient, never connected)
+                        real_cls, p._components.soap_client_class = p._components.soap_client_class, SoapClient
+                        client = p._mk_soap_client('10.9.9.9:80', all_enc)
+                        p._components.soap_client_class = real_cls
+                        if when == 'after-start':
+                            p.set_used_compression(*second)
+                        enabled = list(second)
+                        name = f'{"+".join(first) or "none"}>{"+".join(second) or "none"}/{when}'
+                        srv = captured[0] if captured else None
+                        if srv is None:
+                            ctx.violation('config/no-own-http-server-created', {'case': name}, case={'kind': 'config'})
+                            continue
+                        for header in ('gzip', 'lz4', 'x-lz4, gzip;q=0.5', '*'):
+                            chosen, _ = _server_choice(header, srv.supported_encodings)
+                            ctx.outcome(f'config-server:coding={chosen}')
+                            if chosen is not None and chosen not in enabled:
+                                ctx.violation(f'config/server-response/not-enabled-locally/{name}',
+                                              {'accept_encoding': header, 'chosen': chosen, 'enabled_now': enabled},
+                                              case={'kind': 'config'})
+                                break
+                        sent = {}
+
+                        class Conn:
+                            sock = object()
+
+                            def request(self, method, path, body=None, headers=None):  # noqa: ARG002
+                                sent['headers'] = dict(headers)
+
+                            def getresponse(self):
+                                return _resp(b'HTTP/1.1 200 OK\r\nContent-Length: 0\r\n\r\n')
+
+                            def close(self):
+                                pass
+                        client._http_connection = Conn()
+                        client._send_soap_request('/x', b'<n>' + b'y' * 64 + b'</n>', 'verif')
+                        chosen = sent['headers'].get('Content-Encoding')
+                        ctx.outcome(f'config-client:coding={chosen}')
+                        if chosen is not None and chosen not in enabled:
+                            ctx.violation(f'config/notification-request/not-enabled-locally/{name}',
+                                          {'chosen': chosen, 'enabled_now': enabled}, case={'kind': 'config'})
+                    finally:
+                        w.close()
+    finally:
+        pimpl.HttpServerThreadBase = saved
+
+
 # ------------------------------------------------------------------ negotiation
 TOKENS = ['gzip', 'lz4', 'x-lz4', 'identity', '*', 'br']
 QS = ['', ';q=1', ';q=0.5', ';q=0', ';q=0.0', ';q=0.000', '; q=0', ';q = 0', ' ; q =0 ', ';Q=0', '; q = 0.5']
@@ -540,6 +641,7 @@ def run(ctx):
     n = max(1, len(cod) // 32)
     ctx.pmap(_coding_chunk, [cod[i:i + n] for i in range(0, len(cod), n)], chunksize=1)
     _corruption(ctx)
+    _config_histories(ctx)
     heads = negotiation_headers(ctx.quick)
     heads.append(((('gzip', ''),), ','))
     n = max(1, len(heads) // 64)
@@ -577,6 +679,8 @@ def replay(ctx, case):
     elif kind == 'coding':
         body = bytes.fromhex(case['body']) if isinstance(case['body'], str) else (bytes(range(256)) * 30000)[:case['body']]
         _coding_chunk(ctx, [body])
+    elif kind == 'config':
+        _config_histories(ctx)
     elif kind == 'corrupt':
         _corruption(ctx)
     else:
